@@ -6,7 +6,7 @@ props = [json.loads(l) for l in open(os.path.join(V, 'properties.jsonl'))]
 # id -> (level text, technique, level note)
 NOTE = "Trusted: TLC, the GrolPrims Java override (machine arithmetic, Go number/string formatting), the Go harness drivers; exhaustive only within the stated small bounds, seeded random beyond them."
 done = {
- "C20": ("Trie.tla: implementation-shaped trie (shared end marker, min/max, valid) refines the word set; TLC explores every reachable trie for all words of length<=3 over {a,b} (and alphabets with bytes 0/255), invariants MembershipOK/PrefixOK/MinMaxOK in every state; every explored transition is replayed on trie.Trie and the completion callback; random longer histories recorded from trie.Trie are validated by Trie_Trace.tla",
+ "C20": ("Trie.tla: implementation-shaped trie (shared end marker, min/max, valid) refines the word set; TLC explores every reachable trie for all words of length<=3 over {a,b} (and alphabets with bytes 0/255), invariants MembershipOK/PrefixOK/MinMaxOK in every state; every explored transition is replayed on trie.Trie and the completion callback; random longer histories recorded from trie.Trie are validated by Trie_Trace.tla; definitions as the evaluator records them (Record action), wide nodes with all 256 byte values, TAB results in every trace, refused and half-failed definitions, a fresh index probed after a failure",
          "TLC model checking of Trie.tla + transition replay on trie.Trie + trace validation (Trie_Trace.tla)"),
  "C01": ("GrolSem.tla is an independent reference evaluator of the core language written in TLA+ and executed by TLC; programs generated from the spec-side grammar (AST rendered with minimal parentheses from the spec's precedence table) are run on the real interpreter and each run (output text, final value by structure and type, error/non-error) is validated by Sem_Trace.tla against the reference semantics; GrolSem also models a library fragment (extension functions, abs, keys): programs calling it are validated too but a disagreement there is reported as EXTENDED-DEVIATION, not as a violation of C01 (whose statement is the core language)",
          "TLC-executed TLA+ reference semantics (GrolSem) + trace validation of real runs (Sem_Trace.tla)"),
